@@ -121,3 +121,126 @@ Print Assumptions C08_layer_keeps_a_feature.
 Print Assumptions C08_exported_width_ge_1.
 Print Assumptions C08_frozen_component_full_width.
 Print Assumptions C08_export_consistent_for_all_params.
+
+(* ================================================================================================
+   Second tie, by translation (translator/masks2coq.py -> Gen/MasksGen.v, regenerated from the tree under test on every
+   run; Proofs/MasksGen.v): the functions GENERATED from the source of the maskers (features / timestep / dilation, Frozen
+   variants), of PITBinarizer.forward and of PITConv1d._time_mask / time_mask / kernel_size_opt / dilation_opt /
+   features_mask / out_features_opt (PITConv2d, PITLinear: features_mask, out_features_opt) are the model above, for EVERY
+   kernel size K and every parameter vector of the length __init__ gives it; every tensor operation on the way is defined.
+   conv1d_obj K d0 C alpha beta gamma = the layer autoimport builds on a K-tap kernel of initial dilation d0 with C channels. *)
+Require Import Plinio.Base.Tensor Plinio.Gen.MasksGen Plinio.Proofs.MasksGen.
+
+(* the generated theta's are the model's, entry by entry (==: the code multiplies by (1 - ka) and adds ka) *)
+Theorem C08_generated_theta_alpha_is_model : forall C alpha, 1 <= C -> length alpha = C ->
+  Forall2 Qeq (fm_theta_gen C fm_default_keep_alive_channels alpha) (theta_alpha alpha).
+Proof. exact fm_theta_gen_eq. Qed.
+
+Theorem C08_generated_theta_beta_is_model : forall K beta, 1 <= K -> length beta = K -> Forall2 Qeq (tm_theta_gen K beta) (theta_beta beta).
+Proof. exact tm_theta_gen_eq. Qed.
+
+(* C_gamma built by the comprehension, transposed and flipped, for every K: the comb anchored at the LAST tap *)
+Theorem C08_generated_theta_gamma_is_model : forall K gamma, 1 <= K -> length gamma = gamma_len K ->
+  Forall2 Qeq (dm_theta_gen K gamma) (theta_gamma true K gamma).
+Proof. exact dm_theta_gen_eq. Qed.
+
+Theorem C08_generated_gamma_len_is_model : forall K, dm__gamma_len_gen K = gamma_len K.
+Proof. exact dm_gamma_len_gen_eq. Qed.
+
+(* the lengths the theorems assume are the lengths __init__ gives the parameters *)
+Theorem C08_generated_parameter_lengths : forall K C k,
+  length (fm_init_alpha C k) = C /\ length (tm_init_beta K) = K /\ length (dm_init_gamma K) = dm__gamma_len_gen K.
+Proof. exact init_lengths. Qed.
+
+(* what vlib/c08.py evaluates next to run_masks / run_alpha *)
+Theorem C08_generated_masks_are_model : forall K d0 beta gamma, 1 <= K -> length beta = K -> length gamma = gamma_len K ->
+  run_masks_gen K d0 beta gamma = Plinio.Model.Masks.run_masks true K d0 beta gamma.
+Proof. exact run_masks_gen_eq. Qed.
+
+Theorem C08_generated_alpha_is_model : forall alpha, alpha <> [] ->
+  run_alpha_gen alpha = run_alpha alpha /\ run_alpha2_gen alpha = (run_alpha alpha, run_alpha alpha).
+Proof. intros alpha H. split; [apply run_alpha_gen_eq|apply run_alpha2_gen_eq]; exact H. Qed.
+
+Theorem C08_generated_defined : forall K d0 C alpha beta gamma, 1 <= K -> 1 <= C -> length alpha = C -> length beta = K -> length gamma = dm__gamma_len_gen K ->
+  conv1d_obj_ok K C alpha beta gamma = true /\ c1_time_mask_ok (conv1d_obj K d0 C alpha beta gamma) = true /\
+  c1_kernel_size_opt_ok (conv1d_obj K d0 C alpha beta gamma) = true /\ dm__gamma_len_ok K = true.
+Proof. exact gen_defined. Qed.
+
+(* ---- the sentences of C08 on the generated layer: every real parameter vector *)
+Theorem C08_generated_alpha_alive : forall K d0 C alpha beta gamma, 1 <= K -> 1 <= C -> length alpha = C -> length beta = K -> length gamma = dm__gamma_len_gen K ->
+  (1 <= c1_out_features_opt_gen (conv1d_obj K d0 C alpha beta gamma))%Z.
+Proof. exact gen_alpha_alive. Qed.
+
+Theorem C08_generated_time_mask_nonempty : forall K d0 C alpha beta gamma, 1 <= K -> 1 <= C -> length alpha = C -> length beta = K -> length gamma = dm__gamma_len_gen K ->
+  (1 <= c1_kernel_size_opt_gen (conv1d_obj K d0 C alpha beta gamma))%Z.
+Proof. exact gen_time_mask_nonempty. Qed.
+
+Theorem C08_generated_dilation_ge_1 : forall K d0 C alpha beta gamma, 1 <= K -> 1 <= C -> length alpha = C -> length beta = K -> length gamma = dm__gamma_len_gen K ->
+  1 <= d0 -> 1 <= c1_dilation_opt_gen (conv1d_obj K d0 C alpha beta gamma).
+Proof. exact gen_dilation_ge_1. Qed.
+
+Theorem C08_generated_beta_suffix : forall K d0 C alpha beta gamma, 1 <= K -> 1 <= C -> length alpha = C -> length beta = K -> length gamma = dm__gamma_len_gen K ->
+  let s := conv1d_obj K d0 C alpha beta gamma in
+  exists r, 1 <= r <= K /\ forall t, t < K -> nth t (map q2b (binarizer_forward_gen (s_tm_theta s) (s_thr s))) false = (K - r <=? t).
+Proof. exact gen_beta_suffix. Qed.
+
+Theorem C08_generated_gamma_comb : forall K d0 C alpha beta gamma, 1 <= K -> 1 <= C -> length alpha = C -> length beta = K -> length gamma = dm__gamma_len_gen K ->
+  let s := conv1d_obj K d0 C alpha beta gamma in
+  exists v, v < dm__gamma_len_gen K /\
+    forall j, j < K -> nth j (map q2b (binarizer_forward_gen (s_dm_theta s) (s_thr s))) false = Nat.eqb ((K - 1 - j) mod 2 ^ v) 0.
+Proof. exact gen_gamma_comb. Qed.
+
+(* the taps the generated time mask keeps are the arithmetic progression the exported layer implements: kernel_size_opt taps
+   spaced dilation_opt / d0 = 2^v ending at the last timestep (export re-pads with (kernel_size_opt - 1) * dilation_opt) *)
+Theorem C08_generated_kept_taps_progression : forall K d0 C alpha beta gamma, 1 <= K -> 1 <= C -> length alpha = C -> length beta = K -> length gamma = dm__gamma_len_gen K ->
+  let s := conv1d_obj K d0 C alpha beta gamma in
+  let m := map q2b (c1_time_mask_gen s) in
+  let k' := Z.to_nat (c1_kernel_size_opt_gen s) in
+  exists v, v < dm__gamma_len_gen K /\ c1_dilation_opt_gen s = 2 ^ v * d0 /\ kept_lags K m = export_lags k' (2 ^ v) /\ 1 <= k'.
+Proof. exact gen_kept_taps_progression. Qed.
+
+(* frozen maskers: the width is full whatever the (buffer) alpha holds; the frozen time-axis maskers compute the same theta *)
+Theorem C08_generated_frozen_full_width : forall C K d0 alpha beta gamma,
+  c1_features_mask_gen (conv1d_frozen_obj K d0 C alpha beta gamma) = ones C /\
+  c1_out_features_opt_gen (conv1d_frozen_obj K d0 C alpha beta gamma) = Z.of_nat C.
+Proof. exact frozen_features_gen. Qed.
+
+Theorem C08_generated_frozen_full_width_2d_linear : forall C,
+  let th := ffm_theta_gen C fm_default_keep_alive_channels in
+  (c2_features_mask_gen (feat_obj c2_default_binarization_threshold th) = ones C /\ c2_out_features_opt_gen (feat_obj c2_default_binarization_threshold th) = Z.of_nat C) /\
+  (lin_features_mask_gen (feat_obj lin_default_binarization_threshold th) = ones C /\ lin_out_features_opt_gen (feat_obj lin_default_binarization_threshold th) = Z.of_nat C).
+Proof. exact frozen_features_gen23. Qed.
+
+Theorem C08_generated_frozen_time_maskers : forall K beta gamma, ftm_theta_gen K beta = tm_theta_gen K beta /\ fdm_theta_gen K gamma = dm_theta_gen K gamma.
+Proof. exact frozen_time_gen. Qed.
+
+(* a strided layer gets the Frozen time-axis maskers; their vectors are buffers that keep the values __init__ gives them
+   (tm_init_beta, dm_init_gamma: all ones): every tap is kept, the kernel and the dilation are the initial ones *)
+Theorem C08_generated_frozen_time_axis_full : forall K d0 C alpha, 1 <= K ->
+  let s := conv1d_frozen_obj K d0 C alpha (tm_init_beta K) (dm_init_gamma K) in
+  c1_time_mask_gen s = ones K /\ c1_kernel_size_opt_gen s = Z.of_nat K /\ c1_dilation_opt_gen s = d0.
+Proof. exact frozen_time_axis_gen. Qed.
+
+Example C08_generated_example :
+  run_masks_gen 6 3 [0; 0; 0; 3; 0; -1]%Q [0; 1; 0]%Q = ([false; false; false; true; true; true], [false; true; false; true; false; true], [false; false; false; true; false; true], (2, 6, 3)) /\
+  run_alpha_gen [0; -1; 0]%Q = ([false; true; true], 2) /\ run_frozen_gen 3 = ([true; true; true], 3) /\ run_masks_gen_ok 6 [0; 0; 0; 3; 0; -1]%Q [0; 1; 0]%Q = true.
+Proof. vm_compute. repeat split. Qed.
+
+Print Assumptions C08_generated_theta_alpha_is_model.
+Print Assumptions C08_generated_theta_beta_is_model.
+Print Assumptions C08_generated_theta_gamma_is_model.
+Print Assumptions C08_generated_gamma_len_is_model.
+Print Assumptions C08_generated_parameter_lengths.
+Print Assumptions C08_generated_masks_are_model.
+Print Assumptions C08_generated_alpha_is_model.
+Print Assumptions C08_generated_defined.
+Print Assumptions C08_generated_alpha_alive.
+Print Assumptions C08_generated_time_mask_nonempty.
+Print Assumptions C08_generated_dilation_ge_1.
+Print Assumptions C08_generated_beta_suffix.
+Print Assumptions C08_generated_gamma_comb.
+Print Assumptions C08_generated_kept_taps_progression.
+Print Assumptions C08_generated_frozen_full_width.
+Print Assumptions C08_generated_frozen_full_width_2d_linear.
+Print Assumptions C08_generated_frozen_time_maskers.
+Print Assumptions C08_generated_frozen_time_axis_full.
